@@ -161,7 +161,7 @@ def run(ctx):
     done = 0
     from_ms_names(ctx)
     while done < n and ctx.time_left() > 8:
-        batch = gen_valid_graphs(ctx, min(200, n - done))
+        batch = gen_valid_graphs(ctx, min(200, n - done), corpus=True)
         done += len(batch)
         reqs, outs, docs = [], [], []
         for doc, g, _ in batch:
